@@ -47,7 +47,17 @@
    (c) The other read-only calls (ReadOnly): get_component_configuration in its not fully resolved modes, instance,
    replicate, validate, copy, the blueprint / environment accessors ...  They build their answers by layering
    (FlowIR.override_object, in place) and resolving (FlowIR.fill_in, in place) COPIES of the blueprints, variables
-   and components, and they neither read nor fill the cache: no-ops on the state. *)
+   and components, and they neither read nor fill the cache: no-ops on the state.
+
+   The ACTIVE platform (round 6).  A FlowIRConcrete has an active platform (self._platform: the constructor's argument
+   or 'default'; configure_platform(p) sets it to `p or 'default'` and touches nothing else - scripts/epatch.py loops
+   over the platforms of a package this way).  Every call that takes a platform reads `platform = platform or
+   self._platform`: a call whose platform argument is omitted (None, or the empty text) is THE call for the platform
+   that is active at that moment - in particular the cache label of an implicit query names the active platform.
+   [astate] = active platform + state; [aop] = a call with its platform written out (E), the same call with the
+   platform left to the object (Im), configure_platform (ConfigurePlatform); [astep] / [arun]; [elab] writes a history
+   with implicit calls as the history of explicit calls it means (Proofs.arun_elab), which carries every theorem about
+   explicit histories over. *)
 From Coq Require Import String Ascii List Bool ZArith Arith Lia.
 Import ListNotations.
 Require Import V.Lib.PyStr V.Lib.JTree V.Conf.Model.
@@ -420,6 +430,86 @@ Section Matcher.
     end.
 End Matcher.
 
+(* ------------------------------------------------------------------ the active platform *)
+(* the object with its active platform (self._platform) *)
+Record astate := { a_plat : string; a_st : state }.
+
+Inductive aop :=
+  | E (o : op)       (* the call o, its platform argument (if it takes one) written out by the caller *)
+  | Im (o : op)      (* the call o with its platform argument omitted (platform=None, or ''): the code reads
+                        `platform = platform or self._platform`; the platform written inside o is a placeholder *)
+  | ConfigurePlatform (p : option string).   (* configure_platform(p): self._platform = p or 'default' *)
+
+(* `p or FlowIR.LabelDefault` *)
+Definition plat_or_default (p : option string) : string :=
+  match p with
+  | Some EmptyString | None => "default"
+  | Some q => q
+  end.
+
+(* the call o made for platform a (the calls of the alphabet that take a platform argument; a kept reference -
+   LiveVarWrite - names the platform it was obtained for) *)
+Definition with_plat (a : string) (o : op) : op :=
+  match o with
+  | Query _ s n => Query a s n
+  | SetPlatGlobal _ var val => SetPlatGlobal a var val
+  | SetPlatStage _ s var val => SetPlatStage a s var val
+  | RefPlatGlobal _ var val => RefPlatGlobal a var val
+  | RefPlatStage _ s var val => RefPlatStage a s var val
+  | _ => o
+  end.
+
+(* what a call of the larger alphabet means, given the platform that is active when it is made; configure_platform
+   is, for document and cache, one more read-only call *)
+Definition elab1 (act : string) (a : aop) : op :=
+  match a with
+  | E o => o
+  | Im o => with_plat act o
+  | ConfigurePlatform _ => ReadOnly "configure_platform"
+  end.
+
+Definition act_next (act : string) (a : aop) : string :=
+  match a with
+  | ConfigurePlatform p => plat_or_default p
+  | _ => act
+  end.
+
+Fixpoint elab (act : string) (l : list aop) : list op :=
+  match l with
+  | [] => []
+  | a :: r => elab1 act a :: elab (act_next act a) r
+  end.
+
+Fixpoint active_after (act : string) (l : list aop) : string :=
+  match l with
+  | [] => act
+  | a :: r => active_after (act_next act a) r
+  end.
+
+Section Active.
+  Variable mt : Z -> string -> string -> bool.
+  Variable dflt : jv.
+
+  Definition astep (ast : astate) (a : aop) : astate * obs :=
+    match a with
+    | E o => let (st', ob) := step mt dflt (a_st ast) o in ({| a_plat := a_plat ast; a_st := st' |}, ob)
+    | Im o => let (st', ob) := step mt dflt (a_st ast) (with_plat (a_plat ast) o) in
+              ({| a_plat := a_plat ast; a_st := st' |}, ob)
+    | ConfigurePlatform p => ({| a_plat := plat_or_default p; a_st := a_st ast |}, ODone)
+    end.
+
+  Fixpoint arun (ast : astate) (l : list aop) : astate * list obs :=
+    match l with
+    | [] => (ast, [])
+    | a :: r => let (ast1, ob) := astep ast a in
+                let (ast2, obs) := arun ast1 r in (ast2, ob :: obs)
+    end.
+
+  (* per step: observation, cache labels, leaf errors (as [trace]) - of the history the calls mean *)
+  Definition atrace (ast : astate) (l : list aop) : list (obs * list string * list err) :=
+    trace mt dflt (a_st ast) (elab (a_plat ast) l).
+End Active.
+
 (* the document after a history: the cache plays no role *)
 Fixpoint doc_after (d : doc) (ops : list op) : doc :=
   match ops with
@@ -527,16 +617,22 @@ Fixpoint all_agree (base : jv) (all : list (obs * list string * list err)) (ms :
   | _, _ => false
   end.
 
-(* case = (dflt, base tree of the patches, (blueprint, variables, components) of the constructed object, history,
+(* case = (dflt, base tree of the patches, (blueprint, variables, components) of the constructed object,
+           the platform the object was constructed for (active platform at the start), history,
            what the implementation showed) *)
-Definition case := (jv * jv * (jv * jv * list jv) * list op * list (iobs * list string))%type.
+Definition case := (jv * jv * (jv * jv * list jv) * string * list aop * list (iobs * list string))%type.
+
+Definition init_astate (act : string) (b v : jv) (cs : list jv) : astate :=
+  {| a_plat := act; a_st := {| s_doc := {| d_blueprint := b; d_variables := v; d_components := cs |}; s_cache := [] |} |}.
 
 Definition init_state (b v : jv) (cs : list jv) : state :=
   {| s_doc := {| d_blueprint := b; d_variables := v; d_components := cs |}; s_cache := [] |}.
 
+(* the history is evaluated through [atrace] = [trace] of the explicit history it means; Proofs.atrace_obs: its
+   observations are those of [arun] *)
 Definition check_case (c : case) : bool :=
-  let '(dflt, base, (b, v, cs), ops, is) := c in
-  let tr := trace lit_matches dflt (init_state b v cs) ops in
+  let '(dflt, base, (b, v, cs), act, ops, is) := c in
+  let tr := atrace lit_matches dflt (init_astate act b v cs) ops in
   all_agree base tr tr is.
 
 (* diagnosis (replays): index of the first operation whose observation or cache labels disagree, with what the
@@ -553,8 +649,8 @@ Fixpoint first_bad_from (base : jv) (all ms : list (obs * list string * list err
   end.
 
 Definition first_bad (c : case) : option (nat * bool * bool * list string) :=
-  let '(dflt, base, (b, v, cs), ops, is) := c in
-  let tr := trace lit_matches dflt (init_state b v cs) ops in
+  let '(dflt, base, (b, v, cs), act, ops, is) := c in
+  let tr := atrace lit_matches dflt (init_astate act b v cs) ops in
   first_bad_from base tr tr is 0.
 
 (* the two label matchers against Python's re (harness: the repaired pattern on arbitrary names, the pinned
